@@ -129,6 +129,9 @@ structure Drv extends Net where
   addrs  : Array (Option Half) := #[]
   sock    : Sock.Sock := {}
   tl      : Option TL := none
+  lim     : Limiter := {}      -- a bare `RateLimiter` object (class-level runs: `lim ...`)
+  limW    : Nat := 0
+  limM    : Nat := 0
 
 /-- run an operation on layer i (`Net.onLayer`) and format the output line -/
 def onLayer (d : Drv) (i : Nat) (f : State → State × String) : Drv × String :=
@@ -210,6 +213,9 @@ def dupAt {α} (l : List α) (k : Nat) : List α :=
   match l[k]? with
   | some x => l.take (k + 1) ++ [x] ++ l.drop (k + 1)
   | none => l
+
+def showLim (l : Limiter) (m : Nat) : String :=
+  s!"a={l.allowedBytes m} tot={l.bitTotal} n={l.slots.length}"
 
 def step (d : Drv) (line : String) : Drv × String :=
   let toks := (line.trimAscii.toString.splitOn " ").filter (· ≠ "")
@@ -346,6 +352,23 @@ def step (d : Drv) (line : String) : Drv × String :=
     (match mkAddr kv with
     | .error e => (d, s!"exc {e.name}")
     | .ok a => ({ d with tl := some (TL.init (parseCfg kv) a) }, "ok|started=0 clean=1"))
+  | ["lim", "new", en, w, m] =>
+    (match w.toNat?, m.toNat? with
+    | some w, some m => ({ d with lim := { enabled := parseBool en }, limW := w, limM := m }, showLim { enabled := parseBool en } m)
+    | _, _ => (d, "bad-op"))
+  | ["lim", "update", t] =>
+    (match t.toNat? with
+    | some t => let l := d.lim.update d.limW t; ({ d with lim := l }, showLim l d.limM)
+    | none => (d, "bad-op"))
+  | ["lim", "emit", t, n] =>
+    -- what `_process_tx` does with a frame of `n` bytes at time `t`: hand it over (and account it) iff it fits the credit
+    (match t.toNat?, n.toNat? with
+    | some t, some n =>
+      if n ≤ d.lim.allowedBytes d.limM then
+        let l := d.lim.inform t n; ({ d with lim := l }, "emit=1 " ++ showLim l d.limM)
+      else (d, "emit=0 " ++ showLim d.lim d.limM)
+    | _, _ => (d, "bad-op"))
+  | ["lim", "reset"] => let l := d.lim.reset; ({ d with lim := l }, showLim l d.limM)
   | ["tl", "bus", id, ext, hex] =>
     -- a frame the user's rxfn will return (what a stopped layer's own `process()` reads, what the reading thread of a started one reads)
     (match d.tl, id.toNat?, parseHex hex with
